@@ -72,6 +72,7 @@ type SpecFunc struct {
 	Ret    string
 	Body   *SExpr // nil => uninterpreted
 	Rec    bool
+	Ghost  bool // ghost state: a heap component indexed by the (reference of the) argument
 	Pkg    string
 	File   string
 	Line   int
@@ -96,7 +97,7 @@ type SpecFile struct {
 	Axioms    []*Axiom
 }
 
-var kwRe = regexp.MustCompile(`^(func|requires|ensures|assigns|invariant|loop|behaviour|behavior|spec|axiom|lemma|decreases|inline|trusted|overflow|nopanic|props|panics|assert|rec)\b`)
+var kwRe = regexp.MustCompile(`^(ghost|func|requires|ensures|assigns|invariant|loop|behaviour|behavior|spec|axiom|lemma|decreases|inline|trusted|overflow|nopanic|props|panics|assert|rec)\b`)
 
 var sigRe = regexp.MustCompile(`^(\w+)\s*\(([^)]*)\)\s*(\S+)?\s*(?:=\s*(.*))?$`)
 
@@ -304,6 +305,17 @@ func ParseSpecFile(path, pkg string) (*SpecFile, error) {
 				s.Body = e
 			}
 			sf.Specs = append(sf.Specs, s)
+			cur = nil
+		case "ghost":
+			m := sigRe.FindStringSubmatch(rest)
+			if m == nil {
+				return nil, fail("bad ghost declaration")
+			}
+			ps, err := parseParams(m[2])
+			if err != nil || len(ps) != 1 {
+				return nil, fail("ghost state needs exactly one parameter")
+			}
+			sf.Specs = append(sf.Specs, &SpecFunc{Name: m[1], Params: ps, Ret: m[3], Pkg: pkg, File: path, Line: it.no, Text: rest, Ghost: true})
 			cur = nil
 		case "axiom", "lemma":
 			i := strings.Index(rest, ":")
